@@ -11,7 +11,8 @@ RULE = ('Master-level histories as in C09; during every init_schedule() and resc
         'cycle). Before 30 % of the ZooKeeper requests of an operator command (masterapi calls are several requests) a side '
         'world is forked in which the master handles what its watches have for it and publishes a whole cycle while the '
         'command stands half-way; before each write of that publication the store must not hold an instance under two '
-        'servers. Non-trivial: a cut at a /placement/<server>/<instance> write inside a cycle that both deleted and '
+        'servers that are both still in /servers (a record under a server whose node is already gone belongs to a delete_server '
+        'in flight, which wipes it next). Non-trivial: a cut at a /placement/<server>/<instance> write inside a cycle that both deleted and '
         'created entries; distinct by (history, cycle, write index).')
 ASSUMPTIONS = ['in-memory ZooKeeper fake; a crash is modelled as: no further operation of the old master session is applied',
                'fork()ed children (copy-on-write snapshot of the fake and the harness); children disarm inherited hooks',
